@@ -296,6 +296,8 @@ def _c01_jobs(tier):
         J("statemc", "plain", ["--alphabet", "macro", "--depth", d("5", "6"), "--cfg", "1"]),
         J("statemc", "plain", ["--alphabet", "macro", "--depth", d("4", "5"), "--cfg", "0", "--raw", "1", "--devdepth", d("2", "3")]),
         J("cutmc", "asan", ["--mode", "corpus"]),
+        # labelled scenario: TRANSACTION_COMPLETE destroys its own transaction (auto-destroy off)
+        J("statemc", "asan", ["--alphabet", "macro", "--depth", d("4", "5"), "--cfg", "0", "--devdepth", d("4", "5"), "--selfdestroy"]),
     ]
     if not q:
         jobs += [J("statemc", "asan", ["--alphabet", "micro", "--depth", "3", "--cfg", str(c), "--devdepth", "2"]) for c in (3, 4, 5, 9, 13)]
